@@ -110,3 +110,16 @@ Proof.
   - constructor; cbv iota; rewrite ?S; try reflexivity. exact U.
 Qed.
 Open Scope list_scope.
+
+(* the header: a stray second declaration inside the root does not change the standalone flag (lenient: warning
+   UnexpectedXmlFileHeader; strict: that error) *)
+Open Scope string_scope.
+Definition doc_stray_decl := BS ("<?xml version=""1.0"" encoding=""utf-8"" standalone=""yes""?><AUTOSAR xsi:schemaLocation=""http://autosar.org/schema/r4.0 AUTOSAR_00050.xsd"" xmlns=""http://autosar.org/schema/r4.0"" xmlns:xsi=""http://www.w3.org/2001/XMLSchema-instance""><AR-PACKAGES><?xml version=""1.0"" encoding=""utf-8"" standalone=""no""?><AR-PACKAGE><SHORT-NAME>Pkg</SHORT-NAME></AR-PACKAGE></AR-PACKAGES></AUTOSAR>").
+Open Scope list_scope.
+Definition lenient_standalone (d : list N) : option (option bool) :=
+  match LOAD false d with Val (Ret _ st) => Some (p_standalone st) | _ => None end.
+Example stray_declaration_ignored :
+  strict_kind doc_stray_decl = Some UnexpectedXmlFileHeader /\
+  lenient_kinds doc_stray_decl = Some [UnexpectedXmlFileHeader] /\
+  lenient_standalone doc_stray_decl = Some (Some true).
+Proof. repeat split; vm_compute; reflexivity. Qed.
